@@ -32,7 +32,8 @@ LEVEL_NOTE = ("fake API client and component graph; real status trackers fed wit
 RULE = ("battery: batdata generator (C01 domain) x outcome vector over the commanded inverters; pv: 1-6 solar inverters "
         "with arbitrary lower bounds, request negative/zero/positive, x outcome vector. distinct = canonical case "
         "JSON; non-trivial = >=2 set_power calls and at least one non-ok outcome or non-zero excess")
-REQUIRED_BUCKETS = ["battery", "pv", "all-ok", "some-failed", "all-failed", "outcome:range", "outcome:client",
+REQUIRED_BUCKETS = ["pv-inverter-without-a-reported-bound",
+                    "battery", "pv", "all-ok", "some-failed", "all-failed", "outcome:range", "outcome:client",
                     "outcome:exc", "outcome:hang", "excess-nonzero", "multi-inverter-group", "followup-request", "pv-concurrent-requests",
                     "reply-shortly-before-a-fractional-timeout", "unusable-battery-group-requested", "calls-answer-after-different-delays"]
 REQUIRED_COUNTERS = ["results_checked", "set_power_calls_observed"]
